@@ -826,7 +826,8 @@ fn cmd_readers(args: &[String]) -> i32 {
     let plans: Vec<(usize, usize, usize, usize)> = if q {
         vec![(3, 3, 2, 4)]
     } else {
-        vec![(4, 4, 2, 4), (3, 3, 3, 3)]
+        // (the second build profile leaves the triples out: they take fifteen times as long as the pairs)
+        if flag(args, "--light") { vec![(4, 4, 2, 4)] } else { vec![(4, 4, 2, 4), (3, 3, 3, 3)] }
     };
     let mut tot_states = 0u64;
     let mut tot_steps = 0u64;
